@@ -32,11 +32,11 @@ impl FloatEnv {
     pub fn code(&self) -> u64 {
         match *self {
             FloatEnv::Native => 0,
-            FloatEnv::Ulp(d) => 1000 + (d as i64 + 500) as u64,
+            FloatEnv::Ulp(d) => (100_000 + d as i64) as u64,
             FloatEnv::FlushSubnormal => 1,
             FloatEnv::ZeroToMinSubnormal => 3,
-            FloatEnv::UlpAlt(d) => 5000 + (d as i64 + 500) as u64,
-            FloatEnv::Rel(k) => 3000 + (k as i64 + 200) as u64,
+            FloatEnv::UlpAlt(d) => (300_000 + d as i64) as u64,
+            FloatEnv::Rel(k) => (200_000 + k as i64) as u64,
             FloatEnv::ForceZero => 2,
         }
     }
